@@ -5,6 +5,9 @@ fetches, derived from the tree-level diff theorems (C07, C04, C08).
 import MstVerif.Model.Sync
 import MstVerif.Proofs.Reach
 
+set_option linter.unusedSectionVars false
+set_option linter.unusedVariables false
+
 namespace Mst
 variable {K V D : Type} [LinearOrder K] [LinearOrder V] [DecidableEq D]
 
@@ -19,40 +22,130 @@ structure RInv (lvl : K → Nat) (hc : HashCfg K V D) (r : Replica K V D) : Prop
   mirror : r.tree.root.content = r.store
 
 theorem storeInsert_eq (k : K) (v : V) (s : List (K × V)) : storeInsert k v s = insertKV k v s := by
-  sorry
+  induction s with
+  | nil => rfl
+  | cons hd rest ih =>
+    obtain ⟨k', v'⟩ := hd
+    simp only [storeInsert, insertKV, ih]
 
 theorem RInv.sorted {lvl : K → Nat} {hc : HashCfg K V D} {r : Replica K V D} (h : RInv lvl hc r) :
     KSorted r.store := by
-  sorry
+  have := h.inv.sorted
+  unfold Pg.Sorted Pg.keys at this
+  rw [h.mirror] at this
+  exact this
 
 theorem lookupKV_eq_some (s : List (K × V)) (hs : KSorted s) (k : K) (v : V) :
     lookupKV k s = some v ↔ (k, v) ∈ s := by
-  sorry
+  induction s with
+  | nil => simp [lookupKV]
+  | cons hd rest ih =>
+    obtain ⟨k0, v0⟩ := hd
+    have hs' : KSorted rest := by simp [KSorted] at hs ⊢; exact hs.2
+    have hlt : ∀ kv ∈ rest, k0 < kv.1 := by
+      simp [KSorted] at hs
+      intro kv hkv
+      exact hs.1 kv.1 kv.2 hkv
+    simp only [lookupKV, List.mem_cons, Prod.mk.injEq]
+    by_cases hk : k0 = k
+    · subst hk
+      simp only [if_true, Option.some.injEq, true_and]
+      constructor
+      · intro h; exact Or.inl h.symm
+      · rintro (h | h)
+        · exact h.symm
+        · exact absurd (hlt _ h) (lt_irrefl _)
+    · rw [if_neg hk, ih hs']
+      constructor
+      · intro h; exact Or.inr h
+      · rintro (h | h)
+        · exact absurd h.1.symm hk
+        · exact h
 
 theorem lookupKV_eq_none (s : List (K × V)) (k : K) :
     lookupKV k s = none ↔ ∀ v, (k, v) ∉ s := by
-  sorry
+  induction s with
+  | nil => simp [lookupKV]
+  | cons hd rest ih =>
+    obtain ⟨k0, v0⟩ := hd
+    simp only [lookupKV, List.mem_cons, Prod.mk.injEq, not_or, not_and]
+    by_cases hk : k0 = k
+    · subst hk
+      simp only [if_true]
+      constructor
+      · intro h; cases h
+      · intro h; exact absurd rfl ((h v0).1 trivial)
+    · rw [if_neg hk, ih]
+      constructor
+      · intro h v; exact ⟨fun e => absurd e.symm hk, h v⟩
+      · intro h v; exact (h v).2
 
 theorem Replica.empty_inv (lvl : K → Nat) (hc : HashCfg K V D) :
     RInv lvl hc (Replica.empty : Replica K V D) := by
-  sorry
+  obtain ⟨h1, h2⟩ := Tree.empty_inv (V := V) lvl hc
+  exact ⟨h1, h2⟩
 
 /-- Store-level effect of absorbing entries. -/
 def absorbStore (m : Merge) : List (K × V) → List (K × V) → List (K × V)
   | s, [] => s
   | s, kv :: rest => absorbStore m (insertKV kv.1 (m.apply (lookupKV kv.1 s) kv.2) s) rest
 
+theorem absorb_spec (lvl : K → Nat) (hlvl : ∀ k, lvl k < 255) (hc : HashCfg K V D) (m : Merge)
+    (r : Replica K V D) (hr : RInv lvl hc r) (kv : K × V) :
+    ∃ r', r.absorb lvl m kv = .ok r' ∧ RInv lvl hc r' ∧
+      r'.store = insertKV kv.1 (m.apply (lookupKV kv.1 r.store) kv.2) r.store := by
+  obtain ⟨t', h1, h2, h3, -⟩ := Tree.upsert_inv lvl hlvl hc r.tree hr.inv kv.1
+    (m.apply (lookupKV kv.1 r.store) kv.2)
+  refine ⟨{ store := storeInsert kv.1 (m.apply (lookupKV kv.1 r.store) kv.2) r.store, tree := t' },
+    ?_, ⟨h2, ?_⟩, ?_⟩
+  · simp only [Replica.absorb, h1]
+  · simp only [h3, hr.mirror, storeInsert_eq]
+  · simp only [storeInsert_eq]
+
 /-- Absorbing entries never panics, keeps the replica invariant and acts on the store as `absorbStore`. -/
 theorem absorbAll_spec (lvl : K → Nat) (hlvl : ∀ k, lvl k < 255) (hc : HashCfg K V D) (m : Merge)
     (r : Replica K V D) (hr : RInv lvl hc r) (items : List (K × V)) :
     ∃ r', r.absorbAll lvl m items = .ok r' ∧ RInv lvl hc r' ∧ r'.store = absorbStore m r.store items := by
-  sorry
+  induction items generalizing r with
+  | nil => exact ⟨r, rfl, hr, rfl⟩
+  | cons kv rest ih =>
+    obtain ⟨r1, h1, hr1, hs1⟩ := absorb_spec lvl hlvl hc m r hr kv
+    obtain ⟨r2, h2, hr2, hs2⟩ := ih r1 hr1
+    refine ⟨r2, ?_, hr2, ?_⟩
+    · simp only [Replica.absorbAll, h1, h2]
+    · rw [hs2, hs1]; rfl
 
 theorem write_spec (lvl : K → Nat) (hlvl : ∀ k, lvl k < 255) (hc : HashCfg K V D) (m : Merge)
     (r : Replica K V D) (hr : RInv lvl hc r) (k : K) (v : V) :
     ∃ r', r.write lvl m k v = .ok r' ∧ RInv lvl hc r' ∧
       r'.store = insertKV k (m.apply (lookupKV k r.store) v) r.store := by
-  sorry
+  exact absorb_spec lvl hlvl hc m r hr (k, v)
+
+theorem lookupKV_insertKV (k k' : K) (v : V) (s : List (K × V)) :
+    lookupKV k (insertKV k' v s) = if k' = k then some v else lookupKV k s := by
+  induction s with
+  | nil => simp [insertKV, lookupKV]
+  | cons hd rest ih =>
+    obtain ⟨k0, v0⟩ := hd
+    simp only [insertKV]
+    by_cases h1 : k' < k0
+    · simp only [if_pos h1, lookupKV]
+    · rw [if_neg h1]
+      by_cases h2 : k' = k0
+      · subst h2
+        simp only [if_true, lookupKV]
+        by_cases h3 : k' = k <;> simp [h3]
+      · rw [if_neg h2]
+        simp only [lookupKV, ih]
+        by_cases h3 : k0 = k
+        · subst h3; simp [h2]
+        · simp [h3]
+
+theorem lookupKV_none_of_lt (k : K) (s : List (K × V)) (h : ∀ kv ∈ s, k < kv.1) :
+    lookupKV k s = none := by
+  rw [lookupKV_eq_none]
+  intro v hv
+  exact lt_irrefl _ (h _ hv)
 
 /-- Lookup after absorbing, on sorted stores with distinct item keys: an absorbed key holds the
 merge of its old value with the item's value; other keys are untouched. -/
@@ -62,18 +155,82 @@ theorem lookup_absorbStore (m : Merge) (s items : List (K × V)) (hs : KSorted s
       match lookupKV k items with
       | none => lookupKV k s
       | some v => some (m.apply (lookupKV k s) v) := by
-  sorry
+  induction items generalizing s with
+  | nil => simp [absorbStore, lookupKV]
+  | cons hd rest ih =>
+    obtain ⟨k1, v1⟩ := hd
+    have hi' : KSorted rest := by simp [KSorted] at hi ⊢; exact hi.2
+    have hlt : ∀ kv ∈ rest, k1 < kv.1 := by
+      simp [KSorted] at hi
+      intro kv hkv
+      exact hi.1 kv.1 kv.2 hkv
+    simp only [absorbStore]
+    rw [ih _ (insertKV_sorted _ _ s hs) hi']
+    simp only [lookupKV, lookupKV_insertKV]
+    by_cases hk : k1 = k
+    · subst hk
+      rw [lookupKV_none_of_lt k1 rest hlt]
+      simp
+    · simp only [if_neg hk]
 
 theorem absorbStore_sorted (m : Merge) (s items : List (K × V)) (hs : KSorted s) :
     KSorted (absorbStore m s items) := by
-  sorry
+  induction items generalizing s with
+  | nil => exact hs
+  | cons kv rest ih => exact ih _ (insertKV_sorted _ _ s hs)
 
 theorem fetch_sorted (s : List (K × V)) (hs : KSorted s) (rs : List (DR K)) : KSorted (fetch s rs) := by
-  sorry
+  unfold KSorted fetch at *
+  exact hs.sublist (List.filter_sublist.map _)
 
 theorem lookup_fetch (s : List (K × V)) (hs : KSorted s) (rs : List (DR K)) (k : K) :
     lookupKV k (fetch s rs) = if inRanges rs k then lookupKV k s else none := by
-  sorry
+  clear hs
+  induction s with
+  | nil => simp [fetch, lookupKV]
+  | cons hd rest ih =>
+    obtain ⟨k0, v0⟩ := hd
+    unfold fetch at ih ⊢
+    rw [List.filter_cons]
+    by_cases hp : inRanges rs k0 = true
+    · simp only [hp, if_true, lookupKV, ih]
+      by_cases hk : k0 = k
+      · subst hk; simp [hp]
+      · simp [hk]
+    · have hp' : inRanges rs k0 = false := by simpa using hp
+      simp only [hp', lookupKV]
+      by_cases hk : k0 = k
+      · subst hk; simp [hp', ih]
+      · simp [hk, ih]
+
+theorem inRanges_iff (rs : List (DR K)) (k : K) : inRanges rs k = true ↔ Covered k rs := by
+  simp [inRanges, Covered, DR.mem, List.any_eq_true]
+
+/-- Regenerating the root hash of a replica's tree gives a `Hashed` tree still holding the store. -/
+theorem RInv.hashed {lvl : K → Nat} {hc : HashCfg K V D} {r : Replica K V D} (hr : RInv lvl hc r) :
+    Hashed lvl hc (r.tree.genRootHash hc) ∧ (r.tree.genRootHash hc).root.content = r.store := by
+  obtain ⟨i₁, _, gs, e, _⟩ := genRootHash_inv lvl hc r.tree hr.inv
+  refine ⟨⟨i₁, gs⟩, ?_⟩
+  rw [← content_erase, e, content_erase, hr.mirror]
+
+/-- `pull` exposed: the ranges are the diff of the two regenerated trees' page ranges. -/
+theorem pull_aux (lvl : K → Nat) (hlvl : ∀ k, lvl k < 255) (hc : HashCfg K V D) (m : Merge)
+    (a b : Replica K V D) (ha : RInv lvl hc a) (hb : RInv lvl hc b) :
+    ∃ ranges a',
+      diff (pageRanges hc (a.tree.genRootHash hc)) (pageRanges hc (b.tree.genRootHash hc)) = .ok ranges ∧
+      DRValid ranges ∧
+      pull lvl hc m a b = .ok (a', { store := b.store, tree := b.tree.genRootHash hc }) ∧
+      RInv lvl hc a' ∧ a'.store = absorbStore m a.store (fetch b.store ranges) := by
+  obtain ⟨hL, cL⟩ := ha.hashed
+  obtain ⟨hP, cP⟩ := hb.hashed
+  obtain ⟨ranges, hd, -, hv⟩ := diff_trees_ok lvl hc _ _ hL hP
+  have hrecv : RInv lvl hc ({ store := a.store, tree := a.tree.genRootHash hc } : Replica K V D) :=
+    ⟨hL.inv, cL⟩
+  obtain ⟨a', h1, h2, h3⟩ := absorbAll_spec lvl hlvl hc m _ hrecv (fetch b.store ranges)
+  refine ⟨ranges, a', hd, hv, ?_, h2, h3⟩
+  have hpr : pullRanges hc a b = .ok (ranges, a.tree.genRootHash hc, b.tree.genRootHash hc) := by
+    simp only [pullRanges, serialise_eq_pageRanges lvl hc _ hL, serialise_eq_pageRanges lvl hc _ hP, hd]
+  simp only [pull, hpr, h1]
 
 /-- What one pull does, and which keys it is guaranteed to fetch. -/
 theorem pull_spec (lvl : K → Nat) (hlvl : ∀ k, lvl k < 255) (hc : HashCfg K V D) (m : Merge)
@@ -93,7 +250,38 @@ theorem pull_spec (lvl : K → Nat) (hlvl : ∀ k, lvl k < 255) (hc : HashCfg K 
       (∀ a0 a1 b0 b1 : K × V, a.store.head? = some a0 → a.store.getLast? = some a1 →
         b.store.head? = some b0 → b.store.getLast? = some b1 → b0.1 < a0.1 → b1.1 < a1.1 →
         inRanges ranges b0.1 = true) := by
-  sorry
+  obtain ⟨hL, cL⟩ := ha.hashed
+  obtain ⟨hP, cP⟩ := hb.hashed
+  obtain ⟨ranges, a', hd, hv, hpull, hra, hsa⟩ := pull_aux lvl hlvl hc m a b ha hb
+  refine ⟨ranges, a', _, hpull, hra, ⟨hP.inv, cP⟩, rfl, hsa, ?_, ?_, ?_, ?_⟩
+  · intro he
+    have := diff_trees_same_content lvl hc _ _ hL hP (by rw [cL, cP, he])
+    rw [hd] at this
+    exact Except.ok.inj this
+  · intro r hr
+    obtain ⟨h1, -⟩ := diff_trees_confined lvl hc _ _ hL hP ranges hd r hr
+    unfold Pg.keys at h1
+    rw [cP] at h1
+    obtain ⟨kv, hkv, e⟩ := List.mem_map.1 h1
+    exact ⟨kv.2, by rw [← e]; exact hkv⟩
+  · intro hnc hspan kv hkv hnot
+    have hsp : SpanCovers (a.tree.genRootHash hc) (b.tree.genRootHash hc) := by
+      unfold SpanCovers Pg.keys
+      rw [cL, cP]
+      exact hspan
+    obtain ⟨out, ho, hcov⟩ := diff_trees_complete lvl hc _ _ hL hP (hnc _ _) hsp kv
+      (by rw [cP]; exact hkv) (by rw [cL]; exact hnot)
+    rw [hd] at ho
+    cases Except.ok.inj ho
+    exact (inRanges_iff _ _).2 hcov
+  · intro a0 a1 b0 b1 ha0 ha1 hb0 hb1 hlt0 hlt1
+    have := diff_trees_peer_starts_first lvl hc _ _ hL hP b0 b1 a0 a1
+      (by rw [cP]; exact hb0) (by rw [cP]; exact hb1) (by rw [cL]; exact ha0) (by rw [cL]; exact ha1)
+      hlt0 hlt1
+    rw [hd] at this
+    cases Except.ok.inj this
+    rw [inRanges_iff]
+    exact ⟨_, List.mem_singleton.2 rfl, le_refl _, hv _ (List.mem_singleton.2 rfl)⟩
 
 /-- The store a pull produces depends only on the two stores, not on the cache states of the trees. -/
 theorem pull_store_congr (lvl : K → Nat) (hlvl : ∀ k, lvl k < 255) (hc : HashCfg K V D) (m : Merge)
@@ -101,6 +289,31 @@ theorem pull_store_congr (lvl : K → Nat) (hlvl : ∀ k, lvl k < 255) (hc : Has
     (ha' : RInv lvl hc a') (hb' : RInv lvl hc b') (h1 : a.store = a'.store) (h2 : b.store = b'.store) :
     ∃ x y x' y', pull lvl hc m a b = .ok (x, y) ∧ pull lvl hc m a' b' = .ok (x', y') ∧
       x.store = x'.store ∧ y.store = y'.store := by
-  sorry
+  obtain ⟨hL, cL⟩ := ha.hashed
+  obtain ⟨hP, cP⟩ := hb.hashed
+  obtain ⟨hL', cL'⟩ := ha'.hashed
+  obtain ⟨hP', cP'⟩ := hb'.hashed
+  obtain ⟨ranges, x, hd, -, hpull, -, hsx⟩ := pull_aux lvl hlvl hc m a b ha hb
+  obtain ⟨ranges', x', hd', -, hpull', -, hsx'⟩ := pull_aux lvl hlvl hc m a' b' ha' hb'
+  obtain ⟨-, e1⟩ := hashed_eq_of_content_eq lvl hc _ _ hL hL' (by rw [cL, cL', h1])
+  obtain ⟨-, e2⟩ := hashed_eq_of_content_eq lvl hc _ _ hP hP' (by rw [cP, cP', h2])
+  rw [e1, e2, hd'] at hd
+  cases Except.ok.inj hd
+  refine ⟨x, _, x', _, hpull, hpull', ?_, h2⟩
+  rw [hsx, hsx', h1, h2]
 
 end Mst
+
+#print axioms Mst.storeInsert_eq
+#print axioms Mst.RInv.sorted
+#print axioms Mst.lookupKV_eq_some
+#print axioms Mst.lookupKV_eq_none
+#print axioms Mst.Replica.empty_inv
+#print axioms Mst.absorbAll_spec
+#print axioms Mst.write_spec
+#print axioms Mst.lookup_absorbStore
+#print axioms Mst.absorbStore_sorted
+#print axioms Mst.fetch_sorted
+#print axioms Mst.lookup_fetch
+#print axioms Mst.pull_spec
+#print axioms Mst.pull_store_congr
